@@ -912,12 +912,18 @@ func (ob *SuObject) Sort(th *Thread, lt Value) {
 		func() {
 			ob.sorting = true
 			defer func() { ob.sorting = false }()
-			ob.Unlock() // can't hold lock while calling arbitrary code
-			defer ob.Lock()
-			sort.SliceStable(ob.list, func(i, j int) bool {
-				return ToBool(th.Call(lt, ob.list[i], ob.list[j]))
-			})
-			// note: could become concurrent while unlocked
+			// sort a copy because ob.list can be read while unlocked
+			list := slc.Clone(ob.list)
+			func() {
+				ob.Unlock() // can't hold lock while calling arbitrary code
+				defer ob.Lock()
+				sort.SliceStable(list, func(i, j int) bool {
+					return ToBool(th.Call(lt, list[i], list[j]))
+				})
+				// note: could become concurrent while unlocked
+			}()
+			ob.list = list
+			ob.clock++
 		}()
 	}
 }
@@ -932,10 +938,16 @@ func (ob *SuObject) Unique() {
 		func() {
 			ob.sorting = true
 			defer func() { ob.sorting = false }()
-			ob.Unlock() // can't hold lock while calling Equal
-			defer ob.Lock()
-			ob.list = unique(ob.list)
-			// note: could become concurrent while unlocked
+			// use a copy because ob.list can be read while unlocked
+			list := slc.Clone(ob.list)
+			func() {
+				ob.Unlock() // can't hold lock while calling Equal
+				defer ob.Lock()
+				list = unique(list)
+				// note: could become concurrent while unlocked
+			}()
+			ob.list = list
+			ob.clock++
 		}()
 	}
 }
@@ -1077,15 +1089,18 @@ func (ob *SuObject) BinarySearch2(th *Thread, value, lt Value) int {
 			ob.RUnlock()
 		}
 	}()
-	defer ob.clockCheck(ob.clock, "BinarySearch")
-	list := ob.list
-	return sort.Search(len(list), func(i int) bool {
+	clock := ob.clock
+	defer ob.clockCheck(clock, "BinarySearch")
+	return sort.Search(len(ob.list), func(i int) bool {
+		// get the element while we still hold the lock
+		ob.clockCheck(clock, "BinarySearch")
+		x := ob.list[i]
 		if locked {
 			ob.RUnlock() // can't hold lock while calling arbitrary code
 			locked = false
 		}
 		defer func() { locked = ob.RLock() }()
-		return True != th.Call(lt, list[i], value)
+		return True != th.Call(lt, x, value)
 		// note: could become concurrent during lt
 	})
 }
